@@ -70,7 +70,7 @@ def stepEventI (c : Cfg) (st : List Bool) (s : IndSt) : Event → Except Err (Li
       pure (p ++ ind ++ t, st1, { s2 with isprevtext := true })
   | .charactersRaw str => do
     let (p, st1, s1) := parentTagEndI c.enc st s
-    let t ← wStr c.enc str
+    let t ← wRaw c.enc str
     pure (p ++ t, st1, { s1 with ispreserve := true, isprevtext := true })
   | .comment data => do
     let (p, st1, s1) := parentTagEndI c.enc st s
